@@ -22,6 +22,7 @@
 import Bisquitt.Lemmas.GwSt
 import Bisquitt.Props.C29
 import Bisquitt.Spec.Gateway
+import Bisquitt.Model.Client
 
 namespace Bisquitt.Gw
 open Bisquitt Gw
@@ -84,3 +85,26 @@ theorem c06_successor_survives (g : Gw) (t : Tx) (mid mid' : UInt16) (succ : Nat
   · exact hl
 
 end Bisquitt.Gw
+
+namespace Bisquitt.Cl
+open Bisquitt Cl
+
+/-- **C06 (client library).** The client keeps the gateway's QoS-2 PUBLISH exchanges (`byIdB`)
+    apart from its own exchanges (`byId`): storing one never changes what the other store holds … -/
+theorem c06_client_stores_apart (c : Cl) (mid : UInt16) (id : Nat) :
+    (c.store (.byId mid) id).byIdB = c.byIdB ∧ (c.store (.byIdB mid) id).byId = c.byId := ⟨rfl, rfl⟩
+
+/-- … the end of a gateway-initiated exchange removes only itself and nothing of the client's … -/
+theorem c06_client_finally_b (c : Cl) (t : Tx) (mid : UInt16) (h : t.key = .byIdB mid) :
+    (c.runFinally t).byId = c.byId ∧ (c.byIdB.lookup mid ≠ some t.id → c.runFinally t = c) := by
+  unfold runFinally; rw [h]; simp only
+  constructor
+  · split <;> rfl
+  · intro hne; simp [hne]
+
+/-- … and the acknowledgements of the client's own exchanges are looked up among those only. -/
+theorem c06_client_lookup_independent (c : Cl) (other : List (UInt16 × Nat)) (mid : UInt16) :
+    ({ c with byIdB := other } : Cl).lookupById mid = c.lookupById mid ∧
+    ({ c with byId := other } : Cl).lookupByIdB mid = c.lookupByIdB mid := ⟨rfl, rfl⟩
+
+end Bisquitt.Cl
